@@ -768,6 +768,28 @@ func checkEnable(p *Prog, r *Report) {
 	if n := checkVisitedSets(p, r, "D6-enable", []*ssa.Function{fn}); n == 0 {
 		r.Fail("D6-enable", site+":enabled-set", p.Pos(fn.Pos()), "no set of already enabled extractor names is consulted: a required extractor shared by several detectors is enabled once per detector")
 	}
+	// every detector is looked at: the loop over cfg.Detectors is left only when the list is exhausted
+	// or with an error — a `return nil` (or a break) inside it leaves the required extractors of all
+	// later detectors disabled
+	var dhdr *ssa.BasicBlock
+	for _, b := range fn.Blocks {
+		if coll, _, ok := loopScansAll(b); ok && loadsField(coll, "ScanConfig", "Detectors") {
+			dhdr = b
+		}
+	}
+	if dhdr == nil || len(dhdr.Succs) != 2 {
+		r.Undecided("D6-enable", site+":every-detector", p.Pos(fn.Pos()), "no loop over cfg.Detectors found")
+	} else {
+		body, exit := 0, 1
+		if !naturalLoop(dhdr)[dhdr.Succs[0]] {
+			body, exit = 1, 0
+		}
+		w := findPath(Point{dhdr.Succs[body], -1}, func(in ssa.Instruction) bool {
+			ret, ok := in.(*ssa.Return)
+			return ok && isNilConst(retVal(ret, 0))
+		}, nil, edgeSet{Edge{dhdr, exit}: true})
+		r.Check(w == nil, "D6-enable", site+":every-detector", p.Pos(dhdr.Instrs[0].Pos()), "success is reported only after the last detector", "EnableRequiredExtractors can report success from inside its loop over the detectors (an early return or a break): the required extractors of every detector after that one are never enabled; witness path (SSA blocks): "+strings.Join(w, "→"))
+	}
 	// both lookups use the same name value
 	a1, a2 := c1[0].Common().Args[0], c2[0].Common().Args[0]
 	r.Check(a1 == a2, "D6-enable", site+":same-name", p.Pos(c1[0].Pos()), "same name looked up in both registries", "the two registries are asked for different names")
